@@ -13,7 +13,7 @@
 From Coq Require Import List NArith ZArith Bool Permutation.
 From Common Require Import Outcome.
 From BlockTree Require Import Model Spec ProofsTree ProofsPath ProofsSpec ProofsSim ProofsQuery
-  ProofsBest ProofsHist ProofsPre.
+  ProofsBest ProofsHist ProofsPre ProofsNum ProofsLca ProofsMore.
 Import ListNotations.
 Local Open Scope N_scope.
 
@@ -92,6 +92,28 @@ Proof.
   - exact (sim_range_in_memory _ _ p q (sim_after h x a ops)).
 Qed.
 Print Assumptions C15_queries_follow_parent_links.
+
+(* LowestCommonAncestor(p, q) is the first block on the parent chain of p from which q descends
+   (ErrNodeNotFound when either is not held; it never panics on a reachable tree).
+   GetHashByNumber(n) is the block with number n on the parent chain of the best block (the
+   fork choice of property C16), with the same error classes as the specification.
+   GetAllDescendants(p) is the set of held blocks that descend from p; GetHashesAtNumber(n)
+   only reports held blocks with number n, each once. *)
+Theorem C15_lca_and_by_number_follow_parent_links : forall h x a ops p q n,
+  let t := tree_after h x a ops in
+  let s := spec_after h x ops in
+  lowest_common_ancestor t p q = s_lca s p q
+  /\ get_hash_by_number t n = s_hash_by_number s n
+  /\ check_descendants s p (get_all_descendants t p) = true
+  /\ match get_hashes_at_number t n with Ok l => check_at_number s n l = true | _ => False end.
+Proof.
+  intros h x a ops p q n. repeat split.
+  - exact (sim_lca _ _ p q (sim_after h x a ops)).
+  - exact (sim_hash_by_number _ _ n (sim_after h x a ops)).
+  - exact (sim_descendants _ _ p (sim_after h x a ops)).
+  - exact (sim_at_number _ _ n (sim_after h x a ops)).
+Qed.
+Print Assumptions C15_lca_and_by_number_follow_parent_links.
 
 (* non-vacuity: a history with forks and a finalisation that prunes *)
 Example C15_nonvacuous :
